@@ -387,6 +387,22 @@ func (e *Enc) intrinsic(fr *Frame, fn *ssa.Function, args []Val, guard T, st *St
 		}
 		w := x.S.W
 		rs := e.idxSort()
+		if w == 64 && rs.K == SBV && rs.W == 64 && e.quantDepth == 0 && (name == "math/bits.LeadingZeros64" || name == "math/bits.TrailingZeros64") {
+			// relational definition (one fresh result constrained to be the unique answer): much
+			// lighter for the solvers than a 64-way priority encoder
+			x = e.define(x, "clzarg")
+			r := e.declare(rs, "zeros")
+			isZero := Eq(x, IntLit64(x.S, 0))
+			sh := T{BV(64), app("bvsub", "(_ bv63 64)", r.E)}
+			var def T
+			if name == "math/bits.LeadingZeros64" {
+				def = Eq(T{BV(64), app("bvlshr", x.E, sh.E)}, IntLit64(BV(64), 1))
+			} else {
+				def = Eq(T{BV(64), app("bvshl", x.E, sh.E)}, T{BV(64), "#x8000000000000000"})
+			}
+			e.assert(Ite(isZero, Eq(r, IntLit64(rs, 64)), And(T{BoolS, app("bvult", r.E, "(_ bv64 64)")}, def)))
+			return one(r, types.Typ[types.Int])
+		}
 		var r T
 		switch {
 		case strings.Contains(name, "Leading"):
